@@ -12,6 +12,8 @@ pub trait VxStr {
     fn vx_len(&self) -> (r: usize);
     fn vx_as_bytes(&self) -> (r: &[u8]);
     fn vx_strip_suffix_char(&self, c: char) -> (r: Option<&str>);
+    fn vx_split_once_char(&self, c: char) -> (r: Option<(&str, &str)>);
+    fn vx_is_empty(&self) -> (r: bool);
 }
 impl VxStr for str {
     #[verifier::external_body] fn vx_len(&self) -> (r: usize) ensures r == vx_utf8(self@).len() { self.len() }
@@ -22,7 +24,21 @@ impl VxStr for str {
             Some(t) => vx_utf8(self@).len() > 0 && vx_utf8(self@).last() == c as u8 && vx_utf8(t@) == vx_utf8(self@).drop_last(),
             None => vx_utf8(self@).len() == 0 || vx_utf8(self@).last() != c as u8 })
     { self.strip_suffix(c) }
+    /// for an ASCII char c: split at the FIRST byte equal to c (std documentation of str::split_once)
+    #[verifier::external_body] fn vx_split_once_char(&self, c: char) -> (r: Option<(&str, &str)>)
+        ensures (c as u32) < 128 ==> (match r {
+            Some((a, b)) => vx_utf8(self@) == vx_utf8(a@) + seq![c as u8] + vx_utf8(b@) && !vx_utf8(a@).contains(c as u8),
+            None => !vx_utf8(self@).contains(c as u8) })
+    { self.split_once(c) }
+    #[verifier::external_body] fn vx_is_empty(&self) -> (r: bool) ensures r == (vx_utf8(self@).len() == 0) { self.is_empty() }
 }
+
+/// R9 wrapper for `String::from_utf8_lossy(&v).into_owned()`: the decoded string when v is valid utf-8 (the encoding of
+/// some string); otherwise invalid sequences are replaced by U+FFFD, i.e. nothing is known about the bytes of the result
+#[verifier::external_body]
+pub fn vx_from_utf8_lossy_owned(v: &Vec<u8>) -> (r: String)
+    ensures (exists|s: Seq<char>| vx_utf8(s) == v@) ==> vx_utf8(r@) == v@
+{ String::from_utf8_lossy(v).into_owned() }
 
 pub assume_specification<'a> [std::str::from_utf8_unchecked] (v: &'a [u8]) -> (r: &'a str)
     ensures vx_utf8(r@) == v@;
